@@ -88,11 +88,15 @@ var goodStrategies = []string{
 }
 
 var oddStrategies = []string{
-	strategyPrefix,                     // no strategy component at all
-	strategyPrefix + "/nosuch",         // unknown strategy
-	strategyPrefix + "/nosuch/v=1",     //
-	strategyPrefix + "/best-route/v=2", // unknown version
-	strategyPrefix + "/best-route/v=0", //
+	strategyPrefix,                         // no strategy component at all
+	strategyPrefix + "/nosuch",             // unknown strategy
+	strategyPrefix + "/nosuch/v=1",         //
+	strategyPrefix + "/32=multicast",       // the bytes of a strategy's name in a component of another type
+	strategyPrefix + "/32=best-route/v=1",  //
+	strategyPrefix + "/200=best-route",     //
+	strategyPrefix + "/best-route/8=v%3D1", // a generic component that reads like a version
+	strategyPrefix + "/best-route/v=2",     // unknown version
+	strategyPrefix + "/best-route/v=0",     //
 	strategyPrefix + "/multicast/v=18446744073709551615",
 	strategyPrefix + "/best-route/1",            // trailing component that is not a version
 	strategyPrefix + "/best-route/54=%01%02%03", // version component that is not a number encoding
